@@ -24,6 +24,18 @@ def run(ctx):
 
     cases = harness(n, ctx.seed, "h")
     allcases += cases
+
+    # bytes written by a REAL session after a reconnect to a peer with other capabilities
+    # (4-octet AS on->off, off->on; eBGP, iBGP) must decode with the width of the current connection
+    def capflip(k, seed, tag):
+        recs, hok, log = ctx.go_harness(PKG, ["zz_verif_wire_test.go", "zz_verif_sess_test.go"], "TestVerifCapFlip$",
+                                        n=k, seed=seed, tag=tag)
+        _, st = ctx.handle_records(recs)
+        for kk, v in st.items():
+            stats[kk] = stats.get(kk, 0) + v
+        if not hok and not any("does not build" in c for c in ctx.corr_broken):
+            ctx.corr_broken.append("harness TestVerifCapFlip failed: " + log[-1500:])
+    capflip(2 if ctx.tier == "quick" else 25, ctx.seed, "f")
     mism = []
     if cases and ok:
         mism = ctx.coq_cases("Run_Wire", "wcase", [c["coq"] for c in cases], shard=150,
@@ -34,7 +46,8 @@ def run(ctx):
             ctx.corr_broken.append("model Wire and messages.go disagree on case %d (%s): %s" %
                                    (m, c.get("kind"), json.dumps(c.get("in"))[:700]))
     need = ["read:ok", "read:eof", "read:unexpected-eof", "read:other", "read:wellformed-caps-only",
-            "read:wellformed-shorter-than-37", "update:error", "update:nh16", "withdraw:over4096", "open", "keepalive"] + \
+            "read:wellformed-shorter-than-37", "update:error", "update:nh16", "withdraw:over4096", "open", "keepalive",
+            "sess:cap-flip-on-off", "sess:cap-flip-off-on", "sess:capflip-ebgp-updates-after-flip"] + \
            ["update:len%%8=%d" % k for k in range(8)]
     if cases and any(stats.get(k, 0) == 0 for k in need):
         raise Exception("generator degenerate: %r" % stats)
@@ -42,6 +55,7 @@ def run(ctx):
     def search():
         for k in range(3):
             harness(n * 4, ctx.seed * 1000 + k + 11, "s%d" % k)
+            capflip(10, ctx.seed * 1000 + k + 11, "sf%d" % k)
             if ctx.violations:
                 return
 
@@ -67,7 +81,7 @@ def run(ctx):
                         "octet SHOULD be ignored); the two flags are not used by the session; counted in read:mp-capability-with-reserved-octet"]
     ctx.finish(len(cases), distinct,
                "real encoders on boundary ASNs x every prefix length 0..32 x iBGP/eBGP x 4-byte capability, 0/1/2/62/63/64/65/100 and large communities, "
-               "4- and 16-byte next hops, withdraw lists up to 815 prefixes; readOpen on generated OPENs (random capability lists) and their "
+               "4- and 16-byte next hops, withdraw lists up to 815 prefixes; real sessions reconnecting to a peer whose 4-octet-AS capability flipped (UPDATE bytes decoded with the width of the current connection); readOpen on generated OPENs (random capability lists) and their "
                "bit-flipped/truncated/extended/wrong-length variants, notifications and random bytes, delivered in random chunk sizes; "
                "non-trivial = input/output of at least 19 bytes or a non-empty prefix list; distinct by JSON of the case",
                [c["in"] for c in cases[:3]], search=search)
